@@ -59,6 +59,25 @@ func c05Dispatch(c *Ctx, p *Prog) {
 		return out
 	}
 	n := 0
+	// usesDash: the function (with what it calls in the package) tests a byte against '-': the -N form of GOMAXPROCS
+	usesDash := func(f *ssa.Function) bool {
+		found := false
+		for _, g := range staticReach([]*ssa.Function{f}, bprocPkg) {
+			eachInstr(g, func(_ *ssa.BasicBlock, in ssa.Instruction) {
+				if bo, ok := in.(*ssa.BinOp); ok && (bo.Op == token.EQL || bo.Op == token.NEQ) {
+					if k, ok := constInt(bo.Y); ok && k == '-' {
+						if b, ok := bo.X.Type().Underlying().(*types.Basic); ok && b.Kind() == types.Uint8 {
+							found = true
+						}
+					}
+				}
+			})
+		}
+		return found
+	}
+	var gmpClosure, generalClosure *ssa.Function
+	gmpUsesDash, generalNotGmp := false, false
+	// return blocks in block order, so that a closure chosen for one key is seen before the general one
 	for _, b := range ctor.Blocks {
 		ret, ok := b.Instrs[len(b.Instrs)-1].(*ssa.Return)
 		if !ok {
@@ -92,8 +111,15 @@ func c05Dispatch(c *Ctx, p *Prog) {
 			c.Check(uses["Base"] && !uses["Full"] && !uses["Parts"] && !uses["ConfigIndex"], R, "dispatch:.name", site, ".name extracts Name.Base()", fmt.Sprintf(".name does not extract the base name (uses %v)", keysOf(uses)))
 		case !st.Top && len(st.In) == 1 && st.In[".fullname"]:
 			c.Check(uses["Full"] && !uses["Base"] && !uses["Parts"], R, "dispatch:.fullname", site, ".fullname extracts Name.Full()", fmt.Sprintf(".fullname does not extract the full name (uses %v)", keysOf(uses)))
+		case !st.Top && len(st.In) == 1 && st.In["/gomaxprocs"] && uses["Parts"]:
+			// a closure chosen for /gomaxprocs alone: the -N form is decided at construction time
+			n--
+			gmpClosure = fn
+			gmpUsesDash = usesDash(fn)
 		case st.Top && uses["Parts"]:
 			// the /k closure: prefix = key + "=", gomaxprocs flag = (key == "/gomaxprocs")
+			generalClosure = fn
+			generalNotGmp = st.Not["/gomaxprocs"]
 			okPrefix, okFlag := false, false
 			guardSlash := false
 			for _, f := range factsAt(b) {
@@ -135,6 +161,11 @@ func c05Dispatch(c *Ctx, p *Prog) {
 					}
 				}
 			})
+			if !okFlag && gmpClosure != nil && generalNotGmp {
+				// construction-time form: /gomaxprocs has its own closure that knows the -N form, every other key gets
+				// one that does not
+				okFlag = gmpUsesDash && !usesDash(generalClosure)
+			}
 			c.Check(guardSlash && okPrefix && okFlag, R, "dispatch:/k", site, "/k looks up prefix k= among the name parts, GOMAXPROCS form only for /gomaxprocs",
 				fmt.Sprintf("the sub-name extractor is not built as documented (only for keys starting with '/': %v, prefix ends in '=': %v, -N form enabled exactly for /gomaxprocs: %v)", guardSlash, okPrefix, okFlag))
 		case st.Top && uses["ConfigIndex"]:
@@ -522,11 +553,17 @@ func byteIndexOfAny(v ssa.Value) (ssa.Value, bool) {
 }
 
 func c05Lookup(c *Ctx, p *Prog, R string) {
-	// the sub-name lookup: function in benchproc calling Name.Parts and bytes.HasPrefix with a []byte parameter
+	// the scan: the function of benchproc with a loop that tests bytes.HasPrefix / CutPrefix against a []byte parameter
 	var fn *ssa.Function
+	var prefix *ssa.Parameter
 	for _, f := range p.Funcs("benchproc") {
-		if len(callsIn(f, bfPkg, "Name", "Parts")) > 0 && (len(callsIn(f, "bytes", "", "HasPrefix")) > 0 || len(callsIn(f, "bytes", "", "CutPrefix")) > 0) && f.Signature.Params().Len() == 3 {
-			fn = f
+		if f.Parent() != nil || len(naturalLoops(f)) == 0 {
+			continue
+		}
+		for _, call := range append(callsIn(f, "bytes", "", "HasPrefix"), callsIn(f, "bytes", "", "CutPrefix")...) {
+			if prm, ok := call.Common().Args[1].(*ssa.Parameter); ok && prm.Parent() == f {
+				fn, prefix = f, prm
+			}
 		}
 	}
 	if fn == nil {
@@ -534,8 +571,6 @@ func c05Lookup(c *Ctx, p *Prog, R string) {
 		return
 	}
 	site := p.pos(fn.Pos())
-	prefix := fn.Params[1]
-	flag := fn.Params[2]
 	// the search loop: forward range over the parts, returns at the first HasPrefix match with part[len(prefix):]
 	okFwd, okRet := false, false
 	for _, lp := range naturalLoops(fn) {
@@ -570,7 +605,7 @@ func c05Lookup(c *Ctx, p *Prog, R string) {
 				}
 				// val, ok := bytes.CutPrefix(part, prefix); if ok { return val }
 				if ex, isEx := retVal(ret, 0).(*ssa.Extract); isEx && ex.Index == 0 {
-					if cc, isCall := ex.Tuple.(*ssa.Call); isCall && objIs(calleeObj(&cc.Call), "bytes", "", "CutPrefix") && cc.Call.Args[1] == prefix {
+					if cc, isCall := ex.Tuple.(*ssa.Call); isCall && objIs(calleeObj(&cc.Call), "bytes", "", "CutPrefix") && cc.Call.Args[1] == ssa.Value(prefix) {
 						for _, f := range factsAt(s) {
 							if ok2, isEx2 := f.Cond.(*ssa.Extract); isEx2 && f.True && ok2.Index == 1 && ok2.Tuple == cc {
 								okRet = true
@@ -583,9 +618,9 @@ func c05Lookup(c *Ctx, p *Prog, R string) {
 					continue
 				}
 				if call, ok := sl.Low.(*ssa.Call); ok {
-					if bi, ok := call.Call.Value.(*ssa.Builtin); ok && bi.Name() == "len" && call.Call.Args[0] == prefix {
+					if bi, ok := call.Call.Value.(*ssa.Builtin); ok && bi.Name() == "len" && call.Call.Args[0] == ssa.Value(prefix) {
 						for _, f := range factsAt(s) {
-							if hc, ok := f.Cond.(*ssa.Call); ok && f.True && objIs(calleeObj(&hc.Call), "bytes", "", "HasPrefix") && hc.Call.Args[1] == prefix {
+							if hc, ok := f.Cond.(*ssa.Call); ok && f.True && objIs(calleeObj(&hc.Call), "bytes", "", "HasPrefix") && hc.Call.Args[1] == ssa.Value(prefix) {
 								okRet = true
 							}
 						}
@@ -594,7 +629,16 @@ func c05Lookup(c *Ctx, p *Prog, R string) {
 			}
 		}
 	}
-	// all parts are scanned: the slice indexed by the loop variable is the very slice Name.Parts returned
+	// all parts are scanned: the slice indexed by the loop variable is the very slice Name.Parts returned — in the scan
+	// function itself, or handed to it whole at every call
+	isWholeParts := func(v ssa.Value) bool {
+		if ex, ok := stripConv(v).(*ssa.Extract); ok && ex.Index == 1 {
+			if call, ok := ex.Tuple.(*ssa.Call); ok && objIs(calleeObj(&call.Call), bfPkg, "Name", "Parts") {
+				return true
+			}
+		}
+		return false
+	}
 	nScan := 0
 	for _, lp := range naturalLoops(fn) {
 		for b := range lp.Blocks {
@@ -607,11 +651,27 @@ func c05Lookup(c *Ctx, p *Prog, R string) {
 					continue
 				}
 				nScan++
-				whole := false
-				if ex, ok := stripConv(ia.X).(*ssa.Extract); ok && ex.Index == 1 {
-					if call, ok := ex.Tuple.(*ssa.Call); ok && objIs(calleeObj(&call.Call), bfPkg, "Name", "Parts") {
-						whole = true
+				whole := isWholeParts(ia.X)
+				if prm, ok := stripConv(ia.X).(*ssa.Parameter); ok && prm.Parent() == fn {
+					// the parts are a parameter: every caller in the package passes what Name.Parts returned
+					pi := -1
+					for k, q := range fn.Params {
+						if q == prm {
+							pi = k
+						}
 					}
+					nCalls, allWhole := 0, true
+					for _, g := range p.Funcs("benchproc") {
+						eachInstr(g, func(_ *ssa.BasicBlock, in2 ssa.Instruction) {
+							if ci, ok := in2.(ssa.CallInstruction); ok && ci.Common().StaticCallee() == fn && pi >= 0 && pi < len(ci.Common().Args) {
+								nCalls++
+								if !isWholeParts(ci.Common().Args[pi]) {
+									allWhole = false
+								}
+							}
+						})
+					}
+					whole = nCalls > 0 && allWhole
 				}
 				c.Check(whole, R, fmt.Sprintf("lookup:scans-all-parts#%d", nScan), p.pos(ia.Pos()), "the scan indexes the slice returned by Name.Parts",
 					"the sub-name scan runs over a re-sliced or substituted part list, not over all parts returned by Name.Parts: an explicit /k=v segment outside that range (e.g. /gomaxprocs=4 followed by further segments) is not found")
@@ -621,53 +681,90 @@ func c05Lookup(c *Ctx, p *Prog, R string) {
 	c.Floor(R, "part accesses in the scan loop", nScan, 1)
 	c.Check(okFwd && okRet, R, "lookup:first-match", site, "parts are scanned in order and the first part with the prefix decides",
 		fmt.Sprintf("the sub-name lookup does not return the first part that has the prefix (ascending scan: %v, returns text after the prefix on a match: %v): with a repeated key /k yields a later segment's value", okFwd, okRet))
-	// -N form: only under the gomaxprocs flag, on the last part, when it starts with '-'
+	// -N form: only for /gomaxprocs, on the last part, when it starts with '-'. The function that returns last[1:] is the
+	// scan function itself (guarded by its flag parameter) or one that is used for /gomaxprocs only and hands the other
+	// names on to the scan.
 	okG := false
 	suffixFirst := true
-	for _, b := range fn.Blocks {
-		ret, ok := b.Instrs[len(b.Instrs)-1].(*ssa.Return)
-		if !ok {
+	nDash := 0
+	for _, dfn := range p.Funcs("benchproc") {
+		if dfn.Parent() != nil {
 			continue
 		}
-		sl, ok := retVal(ret, 0).(*ssa.Slice)
-		if !ok || sl.Low == nil {
-			continue
-		}
-		if k, ok := constInt(sl.Low); !ok || k != 1 {
-			continue
-		}
-		hasFlag, hasDash := false, false
-		for _, f := range factsAt(b) {
-			if f.Cond == flag && f.True {
-				hasFlag = true
+		var flag *ssa.Parameter
+		for _, prm := range dfn.Params {
+			if isBoolean(prm.Type()) {
+				flag = prm
 			}
-			if bo, ok := f.Cond.(*ssa.BinOp); ok && bo.Op == token.EQL && f.True {
-				if k, ok := constInt(bo.Y); ok && k == '-' {
-					hasDash = true
+		}
+		for _, b := range dfn.Blocks {
+			ret, ok := b.Instrs[len(b.Instrs)-1].(*ssa.Return)
+			if !ok || len(ret.Results) != 1 {
+				continue
+			}
+			sl, ok := retVal(ret, 0).(*ssa.Slice)
+			if !ok || sl.Low == nil {
+				continue
+			}
+			if k, ok := constInt(sl.Low); !ok || k != 1 {
+				continue
+			}
+			hasFlag, hasDash := false, false
+			for _, f := range factsAt(b) {
+				if flag != nil && f.Cond == ssa.Value(flag) && f.True {
+					hasFlag = true
 				}
-			}
-		}
-		// last part: index len(parts)-1
-		last := false
-		if la := loadAddr(sl.X); la != nil {
-			if ia, ok := la.(*ssa.IndexAddr); ok {
-				if bo, ok := ia.Index.(*ssa.BinOp); ok && bo.Op == token.SUB {
-					if k, ok := constInt(bo.Y); ok && k == 1 {
-						last = true
+				if bo, ok := f.Cond.(*ssa.BinOp); ok && bo.Op == token.EQL && f.True {
+					if k, ok := constInt(bo.Y); ok && k == '-' {
+						hasDash = true
 					}
 				}
 			}
-		}
-		okG = hasFlag && hasDash && last
-		// the -N suffix wins over an explicit /gomaxprocs= segment: its return is not reachable from inside or after
-		// the scan over the parts
-		for _, lp := range naturalLoops(fn) {
-			if reachFrom(lp.Header, nil)[b] {
-				suffixFirst = false
+			if !hasDash {
+				continue
 			}
+			nDash++
+			// last part: index len(parts)-1
+			last := false
+			if la := loadAddr(sl.X); la != nil {
+				if ia, ok := la.(*ssa.IndexAddr); ok {
+					if bo, ok := ia.Index.(*ssa.BinOp); ok && bo.Op == token.SUB {
+						if k, ok := constInt(bo.Y); ok && k == 1 {
+							last = true
+						}
+					}
+				}
+			}
+			if dfn != fn && flag == nil {
+				// used for /gomaxprocs only: decided by the constructor (C05/R1 checks the dispatch); here: it is not the
+				// scan function and nothing but closures of the extractor constructor call it
+				hasFlag = true
+				for _, g := range p.Funcs("benchproc") {
+					eachInstr(g, func(_ *ssa.BasicBlock, in2 ssa.Instruction) {
+						if ci, ok := in2.(ssa.CallInstruction); ok && ci.Common().StaticCallee() == dfn && g.Parent() == nil {
+							hasFlag = false
+						}
+					})
+				}
+			}
+			okG = hasFlag && hasDash && last
+			// the -N suffix wins over an explicit /gomaxprocs= segment: its return is not reachable from inside or after
+			// the scan over the parts (the scan loop, or the call of the scan function)
+			for _, lp := range naturalLoops(dfn) {
+				if reachFrom(lp.Header, nil)[b] {
+					suffixFirst = false
+				}
+			}
+			eachInstr(dfn, func(cb *ssa.BasicBlock, in2 ssa.Instruction) {
+				if ci, ok := in2.(ssa.CallInstruction); ok && ci.Common().StaticCallee() == fn && dfn != fn {
+					if cb == b || reachFrom(cb, nil)[b] {
+						suffixFirst = false
+					}
+				}
+			})
 		}
 	}
 	c.Check(suffixFirst, R, "lookup:gomaxprocs-suffix-first", site, "the -N suffix is consulted before the parts are scanned", "the -N suffix is consulted only after the scan for an explicit /gomaxprocs= segment: for a name carrying both (Test/gomaxprocs=8-4) the explicit segment wins, so /gomaxprocs is 8 where the decomposition's -N part says 4")
-	c.Check(okG, R, "lookup:gomaxprocs-form", site, "the -N form is used only for /gomaxprocs, on the last part, when it starts with '-'", "the -N form of GOMAXPROCS is not restricted to /gomaxprocs and the last '-' part")
+	c.Check(okG && nDash == 1, R, "lookup:gomaxprocs-form", site, "the -N form is used only for /gomaxprocs, on the last part, when it starts with '-'", "the -N form of GOMAXPROCS is not restricted to /gomaxprocs and the last '-' part")
 	_ = constant.MakeBool
 }
